@@ -6,7 +6,8 @@ from translators import bary_tables
 
 ID = "C10"
 PROP_FILE = "props/C10.v"
-COQ_TARGETS = ["props/C10.vo", "theories/Bary/Corr.vo", "theories/Bary/DualCorr.vo", "theories/Bary/BcCorr.vo"]
+COQ_TARGETS = ["props/C10.vo", "theories/Bary/Corr.vo", "theories/Bary/DualCorr.vo", "theories/Bary/BcCorr.vo",
+               "theories/Bary/RefineCorr.vo"]
 TRUSTED = [
     "correspondence harness harness/c10_impl.py, c10_dual.py + theories/Bary/Corr.v, DualCorr.v (diff inside Coq on the exact "
     "rationals of the implementation's doubles; tolerances 1e-13 absolute on coordinates, 1e-12 relative on matrix entries)",
@@ -87,6 +88,7 @@ def correspond(ctx):
     if ra is None:
         return
     geom, tabs, duals = ra.get("geom_cases", []), ra.get("table_cases", []), ra.get("dual_cases", [])
+    conns = ra.get("conn_cases", [])
     g_terms = []
     for c in geom:
         g_terms.append("{| gc_P := %s; gc_B := %s; gc_ids := %s; gc_coarse := %s |}" % (
@@ -100,21 +102,26 @@ def correspond(ctx):
         t_terms.append("{| tc_kind := %d%%nat; tc_vals := %s; tc_len := %s |}" % (KIND[c["kind"]], vals, lens))
     d_terms = [_dual_case(c) for c in duals]
     body = "\n".join([
-        "From Coq Require Import QArith List.", "From BV Require Import Bary.Syms Bary.Model Bary.Corr Bary.DualModel Bary.DualCorr.",
+        "From Coq Require Import QArith List.",
+        "From BV Require Import Bary.Syms Bary.Model Bary.Corr Bary.DualModel Bary.DualCorr Bary.RefineCorr.",
         "Import ListNotations.", "Open Scope Q_scope.",
         "Definition geom : list geom_case := %s." % _lst(g_terms),
         "Definition tabs : list table_case := %s." % _lst(t_terms),
         "Definition duals : list dual_case := %s." % _lst(d_terms),
+        "Definition conns : list conn_case := %s." % _lst(
+            "{| cc_nv := %d%%nat; cc_elements := %s; cc_element_edges := %s; cc_bary := %s |}" % (
+                c["nv"], _nat_ll(c["elements"]), _nat_ll(c["element_edges"]), _nat_ll(c["bary"])) for c in conns),
         "Eval vm_compute in (failing geom_case_ok geom).",
         "Eval vm_compute in (failing table_case_ok tabs).",
         "Eval vm_compute in (failing dual0_case_ok duals).",
-        "Eval vm_compute in (failing dual1_case_ok duals).", ""])
+        "Eval vm_compute in (failing dual1_case_ok duals).",
+        "Eval vm_compute in (failing conn_case_ok conns).", ""])
     out = ctx.coq_eval("c10cases", body, timeout=900)
     n_d0 = sum(1 for c in duals if "dual0" in c)
     n_d1 = sum(1 for c in duals if "dual1" in c)
-    ctx.corr["evaluations"] = len(geom) + len(tabs) + n_d0 + n_d1
+    ctx.corr["evaluations"] = len(geom) + len(tabs) + n_d0 + n_d1 + len(conns)
     ctx.corr["distinct_nontrivial"] = len(geom) + sum(1 for c in tabs if any(v is not None for v in c["vals"])) + \
-        sum(1 for c in duals if c.get("dual0")) + sum(1 for c in duals if c.get("dual1"))
+        sum(1 for c in duals if c.get("dual0")) + sum(1 for c in duals if c.get("dual1")) + len(conns)
     ctx.corr["rule"] = ("one case = one coarse element of one grid: (a) the 18 vertices of its six barycentric children as built "
                         "by Grid.barycentric_refinement vs the connectivity model (coordinates to 1e-13, vertex-id sharing "
                         "exact); (b) the 54 (DP0: 6) entries of dof_transformation of space.barycentric_representation() for "
@@ -144,13 +151,14 @@ def correspond(ctx):
     if out is None:
         return
     blocks = re.findall(r'=\s*(\[[^\]]*\])\s*:\s*list nat', out.replace("\n", " "))
-    if len(blocks) != 4:
+    if len(blocks) != 5:
         ctx.problem("correspondence", "could not parse model evaluation output", out[-2000:])
         return
     names = [("barycentric grid", geom, lambda c: "%s element %d" % (c["grid"], c["e"])),
              ("dof_transformation entries", tabs, lambda c: "%s %s (%s) element %d" % (c["grid"], c["kind"], c["options"], c["e"])),
              ("DUAL0 dof_transformation", duals, lambda c: "%s (%s)" % (c["grid"], c["options"])),
-             ("DUAL1 dof_transformation", duals, lambda c: "%s (%s)" % (c["grid"], c["options"]))]
+             ("DUAL1 dof_transformation", duals, lambda c: "%s (%s)" % (c["grid"], c["options"])),
+             ("element array of the barycentric grid (connectivity loop model)", conns, lambda c: c["grid"])]
     for (nm, cases, desc), blk in zip(names, blocks):
         for i in [int(x) for x in re.findall(r'\d+', blk)]:
             ctx.corr["disagreements"] += 1
